@@ -256,6 +256,79 @@ impl Family for ScopeProduct {
     }
 }
 
+/// Names spelled like the keywords of the primitive types. `\int32` is a name, not the keyword: a reference to it
+/// designates the user-defined entity of that name that the scope walk finds - and nothing when there is none; it
+/// must never end up at the primitive type (which slicec keeps in the same lookup table, under the keyword).
+pub struct KeywordNames;
+const KN_DEFS: u64 = 4; // nothing of that name / a struct / an interface / an alias of uint8, in module M
+const KN_REF_MODULES: [&str; 3] = ["M", "N", "M::Sub"];
+const KN_SPELLINGS: [&str; 4] = ["\\{k}", "::\\{k}", "M::\\{k}", "::M::\\{k}"];
+impl KeywordNames {
+    fn build(idx: u64) -> (Program, String) {
+        let mut i = idx;
+        let order = i % 2;
+        i /= 2;
+        let pos = i % N_POS;
+        i /= N_POS;
+        let spelling = KN_SPELLINGS[(i % 4) as usize];
+        i /= 4;
+        let rmod = KN_REF_MODULES[(i % 3) as usize];
+        i /= 3;
+        let def = i % KN_DEFS;
+        i /= KN_DEFS;
+        let k = PRIMITIVES[i as usize];
+        let mut m = MFile::module("M");
+        m.defs.push(st("Plain", vec![MField::new("f", MType::prim(k))]));
+        let mut d = match def {
+            0 => None,
+            1 => Some(st("x", vec![])),
+            2 => Some(iface("x", vec![], vec![])),
+            _ => Some(alias("x", MType::prim("uint8"))),
+        };
+        if let Some(d) = &mut d {
+            d.common_mut().name = MIdent { name: k.to_string(), escaped: true };
+        }
+        if let Some(d) = d {
+            m.defs.push(d);
+        }
+        let mut r = if rmod == "M" { m.clone() } else { MFile::module(rmod) };
+        let sp = spelling.replace("{k}", k);
+        r.defs.push(user(pos, &sp));
+        // (the keyword itself keeps its meaning next to the name)
+        r.defs.push(st("KeywordUser", vec![MField::new("g", MType::seq(MType::prim(k)).opt())]));
+        let program = if rmod == "M" {
+            vec![r]
+        } else if order == 0 {
+            vec![m, r]
+        } else {
+            vec![r, m]
+        };
+        (program, format!("keyword {k}, {} named \\{k} in M, reference {sp} from module {rmod}, position {pos}", ["nothing", "a struct", "an interface", "an alias of uint8"][def as usize]))
+    }
+}
+impl Family for KeywordNames {
+    fn name(&self) -> String {
+        "keyword-names/16 primitive keywords x {nothing, struct, interface, alias} named \\keyword in M x references \\k, ::\\k, M::\\k, ::M::\\k from M, N and M::Sub x 9 positions x 2 file orders".into()
+    }
+    fn len(&self) -> u64 {
+        PRIMITIVES.len() as u64 * KN_DEFS * 3 * 4 * N_POS * 2
+    }
+    fn describe(&self, idx: u64) -> Value {
+        let (p, what) = Self::build(idx);
+        let rendered = render_program(&p, &Layout::uniform(Sep::Space, Commas::None));
+        json!({"case": what, "files": rendered.iter().map(|r| r.text.clone()).collect::<Vec<_>>()})
+    }
+    fn run(&self, idx: u64) -> CaseOut {
+        let (p, _) = Self::build(idx);
+        let mut out = CaseOut::new(hash_str(&format!("c03kn{:?}", render_program(&p, &Layout::uniform(Sep::Space, Commas::None)).iter().map(|r| r.text.clone()).collect::<Vec<_>>())));
+        out.steps = 0;
+        out.validated = 1;
+        out.nontrivial = true;
+        out.class = check_program(&p, &Layout::uniform(Sep::Space, Commas::None), "keyword-names", &mut out);
+        out
+    }
+}
+
 /// Alias chains with attributes.
 pub struct AliasChains;
 const ENDS: usize = 6;
@@ -487,5 +560,5 @@ impl Family for ModuleNamedLikeAnAlias {
 }
 
 pub fn families(_tier: &str) -> Vec<Box<dyn Family>> {
-    vec![Box::new(RelativeChains), Box::new(AliasChains), Box::new(ModuleNamedLikeAnAlias), Box::new(ScopeProduct)]
+    vec![Box::new(RelativeChains), Box::new(AliasChains), Box::new(ModuleNamedLikeAnAlias), Box::new(KeywordNames), Box::new(ScopeProduct)]
 }
